@@ -123,3 +123,7 @@ def assumptions(prop):
     return ["unique=False queues; silent and non-silent queues (a queue that is not silent parks its producers on a fresh 5 s stall timer "
             "each turn: a signal fired by the environment thread once the producer is parked on it; logger.alert is stubbed)",
             "values are distinct naturals; PLEASE_STOP is only sent through add(PLEASE_STOP)/close()"]
+
+
+for _k in list(RULE):      # RULE-EXTRA: what was added to the exploration after the rounds of seeded changes
+    RULE[_k] += '; plus: the M1 and M3 explorations as LAYERS, observer scenarios (len/pop_all against extend batches), monitors on every non-forced append / every park with a fired till / every stop marker returned / add(PLEASE_STOP), line-mode jobs'
